@@ -70,6 +70,10 @@ static void cb(int ev, const void *a, const void *b, int x, int y, int z)
         case KV_MEETUP_END:  fprintf(evlog, "UE %d %p\n", tid(), a); break;
         case KV_NODE_DONE: {
                 const struct msa *msa = a; const struct aln_mem *m = b;
+                /* very large inputs: only nodes with at least KV_ND_MIN members are dumped */
+                static int nd_min = -1;
+                if(nd_min < 0){ const char *e = getenv("KV_ND_MIN"); nd_min = e ? atoi(e) : 0; }
+                if(msa->nsip[y] + msa->nsip[z] < nd_min){ break; }
                 /* ND task a b len_a len_b | path codes | members of a (sip order) rank:gaps | members of b */
                 fprintf(evlog, "ND %d %d %d %d %d %d ", tid(), x, y, z, m->len_a, m->len_b);
                 kv_print_ints(evlog, m->path + 1, m->path[0]);
